@@ -346,7 +346,7 @@ def run_c20(tier, seed, res):
     res.coverage['cli_series'] = len(series)
 
 
-SERIES_TOKENS = [b'p1.patch', b'p1.patch -p1', b'p1.patch -p', b'p1.patch -pX', b'p1.patch -p99999999999999999999', b'p1.patch -R', b'p1.patch -Rp1', b'p1.patch --bogus',
+SERIES_TOKENS = [b'p1.patch', b'p1.patch -p1', b'p1.patch -p', b'p1.patch -pX', b'p1.patch -p99999999999999999999', b'p1.patch -p18446744073709551615', b'p1.patch -p4294967296', b'p1.patch -R', b'p1.patch -Rp1', b'p1.patch --bogus',
                  b'# comment', b'', b'   \t', b'\xff\xfe.patch', b'p\x00.patch', b'missing.patch', b'p1.patch extra words', b'-p1', b'p1.patch -p -1']
 
 
@@ -408,7 +408,8 @@ def run_c11(tier, seed, res):
         inputs += got
         os.unlink(f)
     # single-field extremes of the hunk header (each field over the whole grid, others fixed) - always in full
-    grid = ['0', '1', '2', '2147483647', '2147483648', '4294967295', '4294967296', '9223372036854775807', '9223372036854775808', '18446744073709551615', '18446744073709551616', '1' + '0' * 30]
+    grid = ['0', '1', '2', '2147483647', '2147483648', '4294967295', '4294967296', '2000000000000000000', '2305843009213693951', '9223372036854775807', '9223372036854775808', '18446744073709551615',
+            '18446744073709551616', '1' + '0' * 30]
     for pos in range(4):
         for g in grid:
             fld = ['1', '3', '1', '3']
